@@ -349,8 +349,8 @@ func runC10(c *Ctx) {
 // more data, try again" (confirmed by reading the three producers); every
 // other error is fatal.  A loop that retries on anything else is reported.
 var temporaryErrors = map[string]string{
-	"transports/obfs4/framing.ErrAgain":        "Decoder.Decode: the frame buffer does not hold a complete frame yet",
-	"transports/obfs4.ErrMarkNotFoundYet":       "obfs4 handshake parsers: mark/MAC not received yet, input still below the maximum handshake length",
+	"transports/obfs4/framing.ErrAgain":          "Decoder.Decode: the frame buffer does not hold a complete frame yet",
+	"transports/obfs4.ErrMarkNotFoundYet":        "obfs4 handshake parsers: mark/MAC not received yet, input still below the maximum handshake length",
 	"transports/scramblesuit.errMarkNotFoundYet": "ScrambleSuit response parser: mark/MAC not received yet",
 }
 
